@@ -229,6 +229,33 @@ func genC13(c *Ctx) {
 			}
 		}
 	}
+	// children-in-zoom-range, deep: random tiles to zoom 30 with large coordinates (the shifts
+	// `tile.X << d`, `xStart+dim` near 2^30), zoom windows of up to three levels starting up to three
+	// levels below the tile and ending at most at zoom 30 (at most 4^5+4^4+4^3 tiles per case); plus the
+	// last tile of each zoom, whose loop bounds are the largest the quantifier allows
+	nCiz := c.Budget / 40
+	for k := 0; k < nCiz && !c.Exhausted(); k++ {
+		z := rng.Intn(31)
+		n := uint64(1) << uint(z)
+		x, y := uint64(rng.Int63())%n, uint64(rng.Int63())%n
+		switch rng.Intn(6) {
+		case 0:
+			x, y = n-1, n-1
+		case 1:
+			x = n - 1
+		case 2:
+			y = n - 1
+		}
+		zs := z + rng.Intn(4)
+		ze := zs + rng.Intn(3)
+		if zs > 30 {
+			zs = 30
+		}
+		if ze > 30 {
+			ze = 30
+		}
+		c.Case("ciz", fmt.Sprintf("%d %d %d %d %d", x, y, z, zs, ze))
+	}
 	// random tiles to zoom 30; related pairs (ancestors, neighbours, same tile) and unrelated ones
 	for k := 0; k < c.Budget && !c.Exhausted(); k++ {
 		z := rng.Intn(31)
@@ -266,11 +293,21 @@ func genC13(c *Ctx) {
 			c.Case("nbr", fmt.Sprintf("%d %d %d", x, y, z))
 		}
 	}
-	// geography: points in range, on tile edges, antimeridian, poles
+	// geography: points in range, on tile edges (columns AND rows, exactly and one ulp to either side),
+	// antimeridian, poles
+	ulpNudge := func(v float64) float64 {
+		switch rng.Intn(3) {
+		case 0:
+			return math.Nextafter(v, math.Inf(1))
+		case 1:
+			return math.Nextafter(v, math.Inf(-1))
+		}
+		return v
+	}
 	for k := 0; k < c.Budget/2 && !c.Exhausted(); k++ {
 		z := rng.Intn(31)
 		var lon, lat float64
-		switch rng.Intn(6) {
+		switch rng.Intn(8) {
 		case 0: // on a tile edge in x
 			zz := rng.Intn(z + 1)
 			n := float64(uint64(1) << uint(zz))
@@ -285,12 +322,50 @@ func genC13(c *Ctx) {
 		case 3: // poles and clamp region
 			lon = rng.Float64()*360 - 180
 			lat = []float64{90, -90, 85.0511, -85.0511, 85.06, -85.06, 89.99, -89.99}[rng.Intn(8)]
+		case 4: // on (or one ulp off) a tile edge in y: the latitude Bound() itself reports for a row edge
+			// of this zoom or of a shallower one (row 0 / row n give the two edges of the mercator square,
+			// beyond the clamp latitude)
+			zz := rng.Intn(z + 1)
+			nn := uint64(1) << uint(zz)
+			row := uint64(rng.Int63()) % (nn + 1)
+			if row == nn {
+				lat = maptile.Tile{X: 0, Y: uint32(row - 1), Z: maptile.Zoom(zz)}.Bound().Min[1]
+			} else {
+				lat = maptile.Tile{X: 0, Y: uint32(row), Z: maptile.Zoom(zz)}.Bound().Max[1]
+			}
+			lat = ulpNudge(lat)
+			lon = rng.Float64()*360 - 180
+		case 5: // one ulp off (or on) a tile edge in x; also the tiny longitudes around 0 that `lon/360 + 0.5` absorbs
+			zz := rng.Intn(z + 1)
+			n := float64(uint64(1) << uint(zz))
+			lon = ulpNudge(360.0*(float64(rng.Intn(int(n)+1))/n) - 180.0)
+			if rng.Intn(8) == 0 {
+				lon = []float64{-5e-324, 5e-324, -1e-300, -1e-17, -1e-15, 1e-15, math.Copysign(0, -1)}[rng.Intn(7)]
+			}
+			if lon < -180 {
+				lon = -180
+			}
+			lat = rng.Float64()*170 - 85
 		default:
 			lon = rng.Float64()*360 - 180
 			lat = rng.Float64()*180 - 90
 		}
 		if lon >= 180 {
 			lon = math.Nextafter(180, 0)
+		}
+		c.Case("at", fmt.Sprintf("%s %s %d", fb(lon), fb(lat), z))
+	}
+	// zooms beyond the quantifier (correspondence only): 31, and from 32 on the uint32 shifts wrap to 0 —
+	// `max != 0` in At is false, Fraction's maxtiles is 0; from 64 on ToGeo's uint64 shift wraps as well
+	for k := 0; k < c.Budget/100+8 && !c.Exhausted(); k++ {
+		z := []int{31, 32, 32, 33, 40, 63, 64, 65, 100}[rng.Intn(9)]
+		lon := rng.Float64()*360 - 180
+		lat := rng.Float64()*180 - 90
+		switch rng.Intn(4) {
+		case 0:
+			lon, lat = 10, 10
+		case 1:
+			lon = 180
 		}
 		c.Case("at", fmt.Sprintf("%s %s %d", fb(lon), fb(lat), z))
 	}
